@@ -83,6 +83,8 @@ func MslOptions(opt string) msl.Options {
 	switch opt {
 	case "fake":
 		o.FakeMissingBindings = true
+	case "pc":
+		o.PipelineConstants = map[string]float64{"scale": 5, "0": 3, "gain": 2}
 	case "v1.2":
 		o.LangVersion = msl.Version1_2
 	case "v2.4":
@@ -125,6 +127,9 @@ func GlslOptions(opt, entry string) glsl.Options {
 		o.LangVersion = glsl.Version330
 	case "es300":
 		o.LangVersion = glsl.VersionES300
+	case "pc":
+		o.LangVersion = glsl.Version430
+		o.PipelineConstants = ir.PipelineConstants{"scale": 5, "0": 3, "gain": 2}
 	}
 	return o
 }
